@@ -9,6 +9,7 @@ pub mod cjson;
 pub mod hashes;
 pub mod ids;
 pub mod pushcond;
+pub mod pushops;
 pub mod redact;
 pub mod sign;
 pub mod uri;
@@ -35,6 +36,7 @@ pub fn run(name: &str, tier: &str) -> Option<Value> {
     Some(match name {
         "redact" => redact::run(tier).to_json(),
         "pushcond" => pushcond::run(tier).to_json(),
+        "pushops" => pushops::run(tier).to_json(),
         "cjson" => cjson::run(tier).to_json(),
         "auth" => auth::run(tier).to_json(),
         "hashes" => hashes::run(tier).to_json(),
